@@ -1,4 +1,5 @@
 import Chiritori.Props.C02
+import Chiritori.Lemmas.Exact
 /-
   C15 — list reports exactly what clean deletes, and changes nothing.
 
@@ -11,6 +12,10 @@ import Chiritori.Props.C02
     last byte of the region.
   * purity: `list` is a function of source and configuration (it is one in the model by construction;
     in Rust it takes an `Rc<String>` and returns a `String`).
+  * `regions_exact` (item level, in the property's space: no tag on a wrapper line, `WrapFree`): the regions are
+    exactly `refRegions (conditionHolds cfg)` - one per default-strategy ready element and nothing from inside it,
+    opening part / inner regions / closing part per unwrapped ready element, in document order; `item_count`
+    is the count clause.
   Not yet proved: that the highlighted text of an item equals the text of its region (`buildItem` internals).
 -/
 namespace Chiritori.Props.C15
@@ -33,6 +38,37 @@ theorem removed_text (src ds de : List Char) (cfg : Cfg) (hde : de ≠ []) (remo
     exact List.map_id _
   rw [e] at h ⊢
   exact removeMarkers_eq _ _ 0 (blen src) (regions_spec src ds de cfg hde).1 removed h
+
+/-- item level: which regions are listed, in the space the property quantifies over -/
+theorem regions_exact (src ds de : List Char) (cfg : Cfg) (hde : de ≠ [])
+    (hw : WrapFree (bytesOf src) (parseSource src ds de)) :
+    (listMarkers src ds de cfg).map (fun x => (x.1.start, x.1.stop)) =
+      refRegions (conditionHolds cfg) (bytesOf src) (parseSource src ds de) := by
+  obtain ⟨hok, _⟩ := tokenize_ok src ds de hde
+  have hfl : flattenParts (parseSource src ds de) = tokenize src ds de := parse_flatten ds de _
+  have hspan : BSpan (flattenParts (parseSource src ds de)) 0 (blen src) := by
+    have := BSpan_of_chain _ 0 0 hok.chain
+    rw [hok.flatEq, Nat.zero_add] at this
+    rw [hfl]; exact this
+  have h := (collect_exact cfg (bytesOf src) _ 0 (blen src) hspan (by simp) hw).1
+  rw [collect_ready_indep] at h
+  rw [← h, list_regions, List.map_map]
+  rfl
+
+/-- the predicate the check evaluates on the implementation's regions (`Spec.c15Holds`) is a theorem of the model -/
+theorem c15Holds_model (src ds de : List Char) (cfg : Cfg) (hde : de ≠ [])
+    (hw : wrapFreeB (bytesOf src) (parseSource src ds de) = true) :
+    c15Holds src ds de cfg ((listMarkers src ds de cfg).map fun x => (x.1.start, x.1.stop)) = true := by
+  unfold c15Holds
+  rw [regions_exact src ds de cfg hde (wrapFreeB_sound _ _ hw)]
+  simp
+
+/-- the count clause: as many items as the reference lists regions -/
+theorem item_count (src ds de : List Char) (cfg : Cfg) (hde : de ≠ [])
+    (hw : WrapFree (bytesOf src) (parseSource src ds de)) :
+    (listMarkers src ds de cfg).length =
+      (refRegions (conditionHolds cfg) (bytesOf src) (parseSource src ds de)).length := by
+  rw [← regions_exact src ds de cfg hde hw, List.length_map]
 
 /-- `find_line` on a sorted table: one more than the number of breaks at or before the needle -/
 theorem findLine_spec (lm : List Nat) (hs : lm.Pairwise (· < ·)) (x : Nat) :
